@@ -48,14 +48,20 @@ Corollary fillna_layout_independent (t1 t2 : tb) : fill_fits resolve fill_dt t1 
   flatten (M_fillna resolve cast na fill fill_dt t1) = flatten (M_fillna resolve cast na fill fill_dt t2).
 Proof. intros H1 H2 E. rewrite !fillna_refines by assumption. now rewrite E. Qed.
 
-(* dropna(axis=1): the columns to keep, unless the whole frame is one 1-D block *)
+(* dropna(axis=1): the columns to keep, for every layout *)
+Lemma flat_map_cols_flatten (t : tb) : flat_map b_cols t = map snd (flatten t).
+Proof.
+  induction t as [|b t IH]; [reflexivity|]. cbn [flat_map]. rewrite flatten_cons, map_app, IH. f_equal.
+  unfold block_columns. rewrite map_map. cbn [snd]. now rewrite map_id.
+Qed.
+
 Theorem dropna_keep_refines (cond : list bool -> bool) (t : tb) :
-  (forall b, t = [b] -> b_1d b = false) ->
   M_dropna_keep_columns na cond t = S_dropna_keep_columns na cond (flatten t).
 Proof.
-  intros H. unfold M_dropna_keep_columns, S_dropna_keep_columns.
-  destruct t as [|b [|b2 r]]; try reflexivity.
-  rewrite (H b eq_refl). cbn [flatten flat_map]. rewrite app_nil_r. unfold block_columns. rewrite map_map. reflexivity.
+  unfold M_dropna_keep_columns, S_dropna_keep_columns.
+  assert (H : map (fun c => negb (cond (map na c))) (flat_map b_cols t) = map (fun c => negb (cond (map na (snd c)))) (flatten t))
+    by (rewrite flat_map_cols_flatten, map_map; reflexivity).
+  destruct t as [|b [|b2 r]]; try exact H. cbn [flat_map] in H. rewrite app_nil_r in H. exact H.
 Qed.
 
 End FillProofs.
